@@ -176,6 +176,8 @@ def call_loader(loader: str, d: Path, variant: dict):
     from gemdat.trajectory import Trajectory
 
     kw = dict(variant)
+    if kw.get('cache') == 'EXPLICIT-STR':
+        kw['cache'] = str(d / 'explicit-name.cache')  # an explicit cache file name given as a plain string
     if loader == 'lammps':
         base = dict(coords_file=d / 'lmp.xyz', data_file=d / kw.pop('_data', 'lmp.data'), temperature=300, time_step=1.0)
         base.update(kw)
@@ -193,7 +195,7 @@ def call_loader(loader: str, d: Path, variant: dict):
 VARIANTS = {
     'lammps': [
         {}, {'temperature': 500}, {'time_step': 2.0}, {'type_mapping': {'LI': 'Na', 'S': 'Se'}}, {'type_mapping': {'LI': 'K', 'S': 'Se'}}, {'type_mapping': {'LI': 'Na', 'S': 'Se', 'X': 'O'}},
-        {'constant_lattice': False}, {'atom_style': 'charge'}, {'coords_format': 'XYZ'}, {'_data': 'lmp2.data'},
+        {'constant_lattice': False}, {'atom_style': 'charge'}, {'coords_format': 'XYZ'}, {'_data': 'lmp2.data'}, {'cache': 'EXPLICIT-STR'},
     ],
     'vasprun': [{}, {'constant_lattice': False}, {'exception_on_bad_xml': False}, {'parse_dos': False}, {'_file': 'vasprun.run1.xml'}, {'ionic_step_skip': 2}],
     'gromacs': [{}, {'temperature': 500}, {'constant_lattice': False}],
